@@ -48,7 +48,7 @@ type Workload struct {
 // heavily, and a history still splits into three projections when the
 // whole-history check is too expensive.
 var (
-	stressTop      = []string{"a", "b", "c"}
+	stressTop      = []string{"a", "b", "c", "d", "e"}[:3]
 	stressAlphabet = []string{"a", "b"}
 )
 
